@@ -415,8 +415,8 @@ def strat_views(tier):
       try:
         model = tr.ref_set(model, tr.npath([list(c) for c in q]), tr.ref_get(data, tr.npath([list(c) for c in q])))
         upd.append([[list(c) for c in q], {'orig': 1}])
-      except (TypeError, KeyError, IndexError, AssertionError):
-        pass
+      except (TypeError, KeyError, IndexError, AssertionError, ValueError):
+        pass      # the path no longer exists / cannot hold the original object (e.g. an array element given a container back)
     upd2 = upd
     return {'tree': tj, 'multi': multi, 'update': upd2, 'as_key': draw(st.booleans()), 'share': share,
             'raw_tuple_keys': draw(st.booleans())}
